@@ -22,7 +22,7 @@ DECIDING = ['derivatives_compared', 'rows_compared', 'pop_output_columns', 'matr
             'two_equation_couplings', 'couplings_with_constant', 'scalar_weight_couplings']
 ASSUMPTIONS = ['W[i, j] couples source unit j to target unit i', 'scalar weight w means w * sum_j source_j for every target']
 CASE_TIMEOUT = 240
-FOCUS = ['parallel_connectivities', 'dynamic_couplings_share_target', 'conn_delay', 'conn_coupling', 'conn_scalar', 'pop_n1_connected', 'conn_coupling_post_with_delay',
+FOCUS = ['conn_mixed_delay_same_source', 'parallel_connectivities', 'dynamic_couplings_share_target', 'conn_delay', 'conn_coupling', 'conn_scalar', 'pop_n1_connected', 'conn_coupling_post_with_delay',
          'two_delayed_conns_same_source', 'coupling_src_post_same_name', 'coupling_shares_target_var',
          'matrix_delay_source_named_k']
 
@@ -215,7 +215,8 @@ def _gen_pop_case(rnd, want, opened, dynamic_only=False):
         for c in conns:
             dsrc.setdefault(c['source'], set()).add(bool(c.get('delay')))
         if any(len(v) > 1 for v in dsrc.values()):
-            continue
+            # (for scalar edges this is a recorded C09 finding; Connectivity connections keep the two apart - part of the main sweep)
+            risk.add('conn_mixed_delay_same_source')
         dops = {}
         for c in conns:
             if c.get('delay'):
